@@ -13,11 +13,30 @@ import (
 // retrieve everything (channelCapacity >= 1). Bounds: capacity 0..2, bufferSizeMaximum 0..2, 1..2 producers x <= 2 items
 // (thorough 3), 1 consumer, loader/free-node goroutines of the real code, virtual time, <= 1 preemption (thorough 2).
 
+// A queued value is a concrete identity tag (producer*10 + sequence number: the bookkeeping below runs on tags)
+// plus an arbitrary symbolic payload that has to come out of the queue unchanged for all its values.
+type c07Item struct{ Tag, Payload int }
+
 type c07Log struct {
 	mu        sync.Mutex
 	accepted  []int
 	rejected  []int
 	delivered []int
+	payload   map[int]int
+}
+
+func (l *c07Log) item(tag int) c07Item {
+	l.mu.Lock()
+	defer l.mu.Unlock()
+	if l.payload == nil {
+		l.payload = map[int]int{}
+	}
+	p, ok := l.payload[tag]
+	if !ok {
+		p = vfInt("payload")
+		l.payload[tag] = p
+	}
+	return c07Item{Tag: tag, Payload: p}
 }
 
 func (l *c07Log) accept(v int, err error) {
@@ -30,9 +49,12 @@ func (l *c07Log) accept(v int, err error) {
 	l.mu.Unlock()
 }
 
-func (l *c07Log) deliver(v int) {
+func (l *c07Log) deliver(it c07Item) {
 	l.mu.Lock()
-	l.delivered = append(l.delivered, v)
+	want, known := l.payload[it.Tag]
+	vfAssert("never-invented", known)
+	vfAssert("payload-intact", vfImplies(known, it.Payload == want))
+	l.delivered = append(l.delivered, it.Tag)
 	l.mu.Unlock()
 }
 
@@ -70,12 +92,12 @@ func c07Check(l *c07Log, complete bool) {
 func vh_C07_ChannelQueue() {
 	vfSetMapOrder(2)
 	capacity := vfRange("cap", 0, 2)
-	q := NewChannelQueue[int](capacity)
+	q := NewChannelQueue[c07Item](capacity)
 	l := &c07Log{}
 	n := vfRange("items", 1, 2+vfTier())
 	// non-blocking producer: Offer accepts exactly while there is room
 	for i := 0; i < n; i++ {
-		err := q.Offer(i)
+		err := q.Offer(l.item(i))
 		l.accept(i, err)
 		if i < capacity {
 			vfAssert("offer-accepts-while-room", err == nil)
@@ -89,12 +111,12 @@ func vh_C07_ChannelQueue() {
 	var wg sync.WaitGroup
 	wg.Add(1)
 	go func() {
-		vfAssert("put-no-error", q.Put(10) == nil)
+		vfAssert("put-no-error", q.Put(l.item(10)) == nil)
 		l.accept(10, nil)
 		wg.Done()
 	}()
 	for i := 0; i < total; i++ {
-		var v int
+		var v c07Item
 		var err error
 		switch vfChoose("take", 2) {
 		case 0:
@@ -114,14 +136,14 @@ func vh_C07_ChannelQueue() {
 	vfReach("end")
 }
 
-func c07Produce(q *BufferedChannelQueue[int], l *c07Log, p, n int, usePut bool) {
+func c07Produce(q *BufferedChannelQueue[c07Item], l *c07Log, p, n int, usePut bool) {
 	for i := 0; i < n; i++ {
 		v := p*10 + i
 		var err error
 		if usePut {
-			err = q.Put(v)
+			err = q.Put(l.item(v))
 		} else {
-			err = q.Offer(v)
+			err = q.Offer(l.item(v))
 		}
 		vfAssert("offer-error-is-full-or-nil", err == nil || err == ErrQueueIsFull)
 		l.accept(v, err)
@@ -129,13 +151,13 @@ func c07Produce(q *BufferedChannelQueue[int], l *c07Log, p, n int, usePut bool) 
 }
 
 // c07Drain: repeated Take/Poll calls without any further Offer retrieve everything that was accepted.
-func c07Drain(q *BufferedChannelQueue[int], l *c07Log, want int) {
+func c07Drain(q *BufferedChannelQueue[c07Item], l *c07Log, want int) {
 	c07DrainHow(q, l, want, vfChoose("how", 3)) // one retrieval style per run
 }
 
-func c07DrainHow(q *BufferedChannelQueue[int], l *c07Log, want int, how int) {
+func c07DrainHow(q *BufferedChannelQueue[c07Item], l *c07Log, want int, how int) {
 	for tries := 0; len(l.delivered) < want && tries < 4*want+4; tries++ {
-		var v int
+		var v c07Item
 		var err error
 		switch how {
 		case 0:
@@ -163,7 +185,7 @@ func vh_C07_BufferedProducersThenConsumer() {
 	vfSetMapOrder(2)
 	capacity := vfRange("cap", 1, 2)
 	bufMax := vfRange("bufmax", 0, 2)
-	q := NewBufferedChannelQueue[int](capacity, bufMax, 1)
+	q := NewBufferedChannelQueue[c07Item](capacity, bufMax, 1)
 	l := &c07Log{}
 	producers := vfRange("producers", 1, 2)
 	per := vfRange("per", 1, 2+vfTier())
@@ -191,7 +213,7 @@ func vh_C07_BufferedConcurrentConsumer() {
 	vfSetMapOrder(2)
 	capacity := vfRange("cap", 0, 1)
 	bufMax := vfRange("bufmax", 0, 2)
-	q := NewBufferedChannelQueue[int](capacity, bufMax, 1)
+	q := NewBufferedChannelQueue[c07Item](capacity, bufMax, 1)
 	l := &c07Log{}
 	per := vfRange("per", 1, 2+vfTier())
 	var wg sync.WaitGroup
@@ -199,7 +221,7 @@ func vh_C07_BufferedConcurrentConsumer() {
 	go func() { c07Produce(q, l, 0, per, false); wg.Done() }()
 	go func() {
 		for i := 0; i < per; i++ {
-			var v int
+			var v c07Item
 			var err error
 			if vfChoose("how", 2) == 0 {
 				v, err = q.TakeWithTimeout(150 * time.Millisecond)
@@ -228,12 +250,12 @@ func vh_C07_BufferedConcurrentConsumer() {
 func vh_C07_BufferedScript() {
 	vfSetMapOrder(2)
 	bufMax := vfRange("bufmax", 1, 1+vfTier())
-	q := NewBufferedChannelQueue[int](1, bufMax, 1)
+	q := NewBufferedChannelQueue[c07Item](1, bufMax, 1)
 	l := &c07Log{}
 	next := 0
 	raw := q.GetChannel() // obtained once: later receives on it do not wake the loader by themselves
 	offer := func() {
-		err := q.Offer(next)
+		err := q.Offer(l.item(next))
 		vfAssert("offer-error-is-full-or-nil", err == nil || err == ErrQueueIsFull)
 		l.accept(next, err)
 		next++
